@@ -118,6 +118,11 @@ func init() {
 		Decides:    "three places where a static type is turned into an unchecked run-time assumption: a typed opcode chosen under IsSubtype(_, Int/Float) is executed by a handler that reads the operand with exactly those accessors; a call on a class-typed receiver is bound statically only under `exact || class has no children`; and the Children sets (with every other field) survive the deep copy of the type environment that the REPL restores, so the no-children test stays truthful.",
 		NotCovered: "narrowing soundness, subtyping, generic instantiation, and whether each native method returns a value of its declared return type (planned ARGREP results, not built; the Regex#* example named in the property is therefore not decided).",
 	}
+	props["C20"] = &PropSpec{
+		Rules:      []string{"str/units"},
+		Decides:    "unit consistency of the string implementation: in value/string.go, value/char.go and the native String methods, no comparison or addition/subtraction mixes a byte quantity (len, ByteCount), a code-point quantity (RuneCount, CharCount, Length) and a grapheme quantity (uniseg counts, GraphemeCount), given the documented unit of each index/length parameter.",
+		NotCovered: "case mapping, comparison, grapheme segmentation, slicing and searching results: they depend on string contents and on the Unicode tables of the Go library, not on the shape of the code.",
+	}
 	props["C25"] = &PropSpec{
 		Rules:      []string{"effect/mayfatal-unlock", "path/recoverguard", "path/ctx-blocking"},
 		Decides:    "the `errors rather than crashes` half of the property: (1) no unlock of a sync mutex driven by the program can reach the Go runtime's unrecoverable fatal error (every unpaired Unlock/RUnlock is dominated by a test of state the wrapper tracks); (2) every send, close, reflect.Select and wait-group decrement on an object the program holds is either under a deferred recover() or guarded by a tracked counter; (3) the context-aware channel operations are arms of a select that also watches the context.",
